@@ -457,7 +457,7 @@ func runC09(c *Check) {
 				}
 				a := ci.Common().Args
 				old := p.T(a[3])
-				emptyOld := old.Op == "slice" && strings.HasPrefix(old.Args[0].Name, "[0]")
+				emptyOld := (old.Op == "slice" && strings.HasPrefix(old.Args[0].Name, "[0]")) || old.IsConst("nil") // []string{} or nil: both empty
 				mast := p.T(a[4])
 				return emptyOld && ensure != nil && ResultOf(mast, 0) != nil && ResultOf(mast, 0).V == ensure.V
 			}
